@@ -115,6 +115,20 @@ SUMMARY.update({
  "C15-d": ("C15", "crypto Signature::verify / verify_batch: dalek::Signature::from(bytes) (panics on non-canonical top bits) instead of from_bytes(..)?", "a vote / timeout / certificate whose signature has a top bit of the last byte set"),
 })
 
+SUMMARY.update({
+ "C02-g": ("C02", "core.rs commit: early-return guard `last_committed_round >= block.round` became `==`", "process_block on a block whose 2-chain head is older than the last committed block (late orphaned proposal after a view change, or an old proposal received twice): re-delivery, genesis delivered"),
+ "C04-e": ("C04", "messages.rs Timeout::verify no longer checks that the author has stake", "a non-member's self-signed timeout arriving before the genuine quorum: it ends up in the TC the node assembles and sends"),
+ "C09-f": ("C09", "core.rs handle_proposal: expected leader computed from the attached TC (tc.round + 1) instead of the block's round", "a block for round r by leader(t+1) carrying a stale TC of round t and a QC of r-1"),
+ "C11-d": ("C11", "mempool.rs MempoolReceiverHandler: a received batch is re-serialized from the parsed message before hashing / storing", "a received batch whose encoding parses but is not canonical (trailing bytes)"),
+ "C16-f": ("C16", "store Write arm: db.put only when the key is absent", "a key written twice with different values"),
+ "C19-g": ("C19", "aggregator.rs QCMaker / TCMaker: a re-delivered vote / timeout is pushed into the certificate again (stake counted once)", "one authority's vote delivered twice before the quorum completes"),
+ "C20-d": ("C20", "messages.rs Block digest omits the parent hash when the QC is the genesis QC", "blocks extending genesis: payload/parent boundary and block/vote pre-image collisions"),
+})
+
+SUMMARY.update({
+ "C08-f": ("C08", "consensus/src/mempool.rs MempoolDriver: cache of proposals already looked up, filled at look-up time; a second delivery of a parked proposal counts as available", "a proposal with a missing batch delivered twice before the batch arrives"),
+})
+
 def confirmed(d):
     out = {}
     for tag in ("with", "without"):
